@@ -144,8 +144,8 @@ Print Assumptions C20_fms_model_passes_checker.
 Theorem C20_summary_checker_sound :
   forall data obs, C20_summary_check data obs = true ->
     exists s, obs = Some s /\
-      (data <> [] -> is_median2 data (s_med4 s / 2) = true /\ s_q1_4 s <= s_med4 s <= s_q3_4 s /\
-                     s_iqr4 s = s_q3_4 s - s_q1_4 s).
+      (data <> [] -> is_median2 data (s_med4 s / 2) = true /\ s_iqr4 s = s_q3_4 s - s_q1_4 s /\
+                     ((2 <= length data)%nat -> s_q1_4 s <= s_med4 s <= s_q3_4 s)).
 Proof. exact C20_summary_check_sound. Qed.
 Print Assumptions C20_summary_checker_sound.
 
